@@ -328,3 +328,19 @@ func specHasHandler(op string) bool { _, ok := opcodeEvalFns[op]; return ok }
 //@ ensures[nodrop@C07] vcCalled("Emit") || vcLoggedError()
 //@ ensures[count@C07] len(operands) != 1 ==> vcLoggedError() && !vcCalled("Emit") && env.LOC == old(env.LOC)
 //@ assigns Pass1.LOC, ocodeClient.Ocodes, OperandPegImpl.bitMode, OperandType[]
+
+// Thin safety-only contracts (C13): these functions get one obligation per panic site; callers keep
+// using their bodies (option inline).
+
+//@ func processIMUL
+//@ props C13
+//@ option inline
+//@ requires env != nil && env.Client != nil && env.AsmDB != nil
+//@ requires[A1] forall(0, len(operands), func(k int) bool { return operands[k] != nil })
+//@ ensures[safe] true
+
+//@ func emitCommand
+//@ props C13
+//@ option inline
+//@ requires env != nil && env.Client != nil
+//@ ensures[safe] true
